@@ -1,7 +1,8 @@
 (* Extract_term.v -- extraction of the terminal emulator (TermEmu.v) and of the executable draw
-   model (DrawDefs.v, DrawPutDefs.v) to OCaml (ExtrOcamlBasic only). *)
+   model (DrawDefs.v, DrawPutDefs.v) and of the output side of term.c (TermOutDefs.v) to OCaml (ExtrOcamlBasic only). *)
 From Coq Require Import List NArith ZArith Extraction ExtrOcamlBasic.
-From NV Require Import Bytes TermEmu DrawDefs DrawPutDefs.
+From NV Require Import Bytes TermEmu DrawDefs DrawPutDefs TermOutDefs.
 Definition all_types : nat * N * Z := (0%nat, 0%N, 0%Z).
 Extraction "term_model.ml" all_types term_new feed run interp cp_wid wfix fix_left term_col drawupdate drawfix win
-  vi_linecount count_nl text_lines vc_put_chars vc_put_lines put_screen.
+  vi_linecount count_nl text_lines vc_put_chars vc_put_lines put_screen
+  term_window_out term_done term_init term_init_cached reinit_out region_agrees nextline_bottom_out.
